@@ -173,19 +173,22 @@ Definition rerr_code (e : rerr) : nat :=
 Local Open Scope Q_scope.
 (* r_range: None -> default; otherwise the list handed over must have exactly two entries;
    n_bins: given -> int(n_bins) must be positive and bin_width is ignored; else int((r1 - r0) / bin_width),
-   which np.histogram refuses when it is 0; np.histogram also refuses r1 < r0 *)
+   which np.histogram refuses when it is not positive; np.histogram also refuses r1 < r0 and widens an empty
+   range r0 = r1 to (r0 - 1/2, r1 + 1/2) *)
 Definition rdf_options (r_range : option (list Q)) (n_bins : option Z) (bin_width : option Q)
   : rerr + (Q * Q * nat) :=
   match (match r_range with None => inr m_dflt_r_range | Some [a; b] => inr (a, b) | Some _ => inl RRangeShape end) with
   | inl e => inl e
   | inr (r0, r1) =>
+      let widen (n : nat) : rerr + (Q * Q * nat) :=
+        if Qeq_bool r0 r1 then inr (r0 - (1 # 2), r1 + (1 # 2), n) else inr (r0, r1, n) in
       match n_bins with
       | Some n => if (n <=? 0)%Z then inl RNBins
-                  else if Qle_bool r0 r1 then inr (r0, r1, Z.to_nat n) else inl RRangeOrder
+                  else if Qle_bool r0 r1 then widen (Z.to_nat n) else inl RRangeOrder
       | None =>
           let n := nbins_of_width r0 r1 (dflt bin_width m_dflt_bin_width) in
-          if negb (Qle_bool r0 r1) then inl RRangeOrder     (* a negative quotient truncates to <= 0 as well *)
-          else if (n <=? 0)%Z then inl RBinsZero else inr (r0, r1, Z.to_nat n)
+          if (n <=? 0)%Z then inl RBinsZero
+          else if Qle_bool r0 r1 then widen (Z.to_nat n) else inl RRangeOrder
       end
   end.
 
@@ -193,7 +196,7 @@ Definition run_rdf_options (c : option (list Q) * option Z * option Q) : list Z 
   let '(rr, nb, bw) := c in
   match rdf_options rr nb bw with
   | inl e => [(- Z.of_nat (rerr_code e))%Z]
-  | inr (_, _, n) => [Z.of_nat n]
+  | inr (r0, r1, n) => [Z.of_nat n; Qnum r0; Zpos (Qden r0); Qnum r1; Zpos (Qden r1)]
   end.
 Local Open Scope nat_scope.
 
